@@ -294,7 +294,7 @@ func genC01(r *rand.Rand, run int, tier string) *vm.Plan {
 func init() {
 	register(&Spec{
 		ID: "C01", Level: "exploration", Quick: 2500, Thorough: 250000,
-		Rule: "multi-party histories: 1-2 issuers build tokens, holders attenuate 0-3 times and sometimes seal, every token is serialized; honest bytes are reloaded and verified under the right and under a wrong root key; an adversary holding only its own keys and the bytes it has seen applies 1-3 mutations per message (bit flip, byte set, truncation, extension, splice; block swap / drop / duplicate; signature, key, block substitution from a donor token; attacker-signed block insert / append / replace; re-keying with re-signed successors; proof replacement; seal with captured secret; seal-signature, last-key, secret flips; root id, algorithm, unknown field, wrong lengths) and the result is presented to Unmarshal + AuthorizerFor. Oracle: independent wire decoder + ed25519 chain walk + key ledger. non-trivial = a mutated token decoded at envelope level and reached signature verification (distinct by plan hash)",
+		Rule: "multi-party histories: 1-2 issuers build tokens, holders attenuate 0-3 times and sometimes seal, every token is serialized; honest bytes are reloaded and verified under the right and under a wrong root key, a quarter of the time by a verifier holding a key source (ids + default) instead of one key; a third of the histories give the builders a root key id; an adversary holding only its own keys and the bytes it has seen applies 1-3 mutations per message (bit flip, byte set, truncation, extension, splice; block swap / drop / duplicate; signature, key, block substitution from a donor token; attacker-signed block insert / append / replace; re-keying with re-signed successors; proof replacement; seal with captured secret; seal-signature, last-key, secret flips; root id, algorithm, unknown field, wrong lengths) and the result is presented to Unmarshal + AuthorizerFor. Oracle: independent wire decoder + ed25519 chain walk + key ledger. non-trivial = a mutated token decoded at envelope level and reached signature verification (distinct by plan hash)",
 		Gen: genC01,
 		Oracles: func(m *vm.VM) []vm.Oracle {
 			return []vm.Oracle{vm.Common{Prop: "C01"}, vm.ChainOracle{Prop: "C01"}, vm.UnmarshalOracle{Prop: "C01"}, vm.RootIDOracle{}, vm.RevocationOracle{}}
@@ -436,7 +436,7 @@ func genC09(r *rand.Rand, run int, tier string) *vm.Plan {
 func init() {
 	register(&Spec{
 		ID: "C09", Level: "exploration", Quick: 2000, Thorough: 200000,
-		Rule: "seal / reload / extend / tamper histories: a token with 0-5 later blocks is sealed; the unsealed token, the sealed token and the sealed token reloaded from bytes are verified and authorized with the same authorizer contents (twin agreement on verification result, verdict class and failed checks; equal revocation ids); Append and Seal are attempted on the sealed and on the reloaded sealed token (all four must fail); the adversary alters the seal signature, the last block, the last announced key, replaces the proof, drops or swaps blocks of the sealed envelope, which must then be rejected (reference chain walk). non-trivial = a sealed/unsealed twin pair was compared (distinct by plan hash)",
+		Rule: "seal / reload / extend / tamper histories: a token with 0-5 later blocks is sealed; the unsealed token, the sealed token and the sealed token reloaded from bytes are verified and authorized with the same authorizer contents and the same limits, a third of the time limits that matter (twin agreement on verification result, verdict class and failed checks; equal revocation ids); Append and Seal are attempted on the sealed and on the reloaded sealed token (all four must fail); the adversary alters the seal signature, the last block, the last announced key, replaces the proof, drops or swaps blocks of the sealed envelope, which must then be rejected (reference chain walk). non-trivial = a sealed/unsealed twin pair was compared (distinct by plan hash)",
 		Gen: genC09,
 		Oracles: func(m *vm.VM) []vm.Oracle {
 			return []vm.Oracle{vm.Common{Prop: "C09"}, vm.SealOracle{}, vm.ChainOracle{Prop: "C09"}, vm.UnmarshalOracle{Prop: "C09"}, vm.RevocationOracle{}, vm.ImmutOracle{Prop: "C08"}}
